@@ -275,4 +275,59 @@ theorem real_keys_total (a b c : Bytes) (c2 : Nat) :
 /-- non-vacuity: "1.5" < "1.50" < "2" — fraction tie broken by the bytes; integer part decides -/
 example : Cmp.afcmp [49, 46, 53] [49, 46, 53, 48] < 0 ∧ Cmp.afcmp [49, 46, 53, 48] [50] < 0 := by decide
 
+/-! ## comparison through the cached key prefix (`_lx_sblk_cmp_key`) -/
+
+/-- Byte keys, plain layout: comparing the lookup key with a node through the cached prefix of the
+    node's lowest key (`Gen.PREFIX_KEY_LEN_V2` = 115 bytes, `SBLK_FULL_LKEY`, the `ksize < lkl`
+    short-cut, the fall-back to the full key on a prefix tie) has the same sign as comparing with the
+    full key — for EVERY stored key, lookup key and (kept abstract) cache length. -/
+theorem prefix_agrees_plain (full k : Bytes) (c2 : Nat) :
+    sgn (Cmp.lxCmp .plain false full k c2) = sgn (Cmp.cmpKeys .plain false full k c2) :=
+  Cmp.lxCmp_plain_nc full k c2
+
+/-- Byte keys, compound layout — PARTIAL: holds when the `ksize < lkl` short-cut is taken only if the
+    lookup body really is shorter than the cached body (`hS`), e.g. when the vnum of the stored
+    compound part is not longer than that of the lookup key's. Without `hS` the C code is wrong, see
+    `prefix_disagrees_compound_witness`. `hL`: the compound vnum (≤ 10 bytes) fits the cache. -/
+theorem prefix_agrees_compound_partial (body k : Bytes) (c1 c2 : Nat)
+    (hL : (Vnum.enc c1).length < Gen.PREFIX_KEY_LEN_V2)
+    (hS : k.length + Vnum.size c2 < Gen.PREFIX_KEY_LEN_V2 →
+          k.length + (Vnum.enc c1).length < Gen.PREFIX_KEY_LEN_V2) :
+    sgn (Cmp.lxCmp .plain true (Cmp.stored true body c1) k c2)
+      = sgn (Cmp.cmpKeys .plain true (Cmp.stored true body c1) k c2) :=
+  Cmp.lxCmp_plain_c body c1 k c2 hL hS
+
+/-- the usual case of `prefix_agrees_compound_partial`: stored compound part in `[0, 2^63)` and a lookup compound part whose
+    `IW_VNUMSIZE` is the same (in particular equal compound parts) -/
+theorem prefix_agrees_compound_same_size (body k : Bytes) (c1 c2 : Nat) (h1 : c1 < 2 ^ 63)
+    (hs : Vnum.size c1 = Vnum.size c2) :
+    sgn (Cmp.lxCmp .plain true (Cmp.stored true body c1) k c2)
+      = sgn (Cmp.cmpKeys .plain true (Cmp.stored true body c1) k c2) := by
+  have e1 := ((vnum_size c1 (by omega)).1 h1).2
+  have l1 := Cmp.enc_length_le10 h1
+  have hP : Gen.IW_VNUMBUFSZ < Gen.PREFIX_KEY_LEN_V2 := by decide
+  exact prefix_agrees_compound_partial body k c1 c2 (by omega) (by rw [e1, hs]; exact id)
+
+set_option maxRecDepth 100000 in
+/-- DEFECT of `_lx_sblk_cmp_key` exhibited by the model (and confirmed on the C code): stored key
+    = 120 × 0x05 with compound part 20000 (3-byte vnum), lookup key = 112 × 0x05 ++ 0x04 with compound
+    part 0 (1-byte vnum). The full comparison says the lookup key is smaller (first difference at
+    byte 112), the cached-prefix path says it is greater: `ksize = 113 + 1 < 115` takes the short-cut
+    although the cached body has only 115 - 3 = 112 bytes. -/
+theorem prefix_disagrees_compound_witness :
+    Cmp.lxCmp .plain true (Cmp.stored true (List.replicate 120 5) 20000) (List.replicate 112 5 ++ [4]) 0 = 1 ∧
+    Cmp.cmpKeys .plain true (Cmp.stored true (List.replicate 120 5) 20000) (List.replicate 112 5 ++ [4]) 0 = -1 := by
+  have e : Vnum.enc 20000 = [223, 227, 1] := by
+    rw [Vnum.enc, dif_neg (by decide), Vnum.enc, dif_neg (by decide), Vnum.enc, dif_pos (by decide)]
+  simp only [Cmp.stored, e, if_true]
+  decide
+
+/-- non-vacuity: a stored key longer than the cache, a lookup key that ties on the cached prefix -/
+example : sgn (Cmp.lxCmp .plain false (List.replicate 120 5 ++ [9]) (List.replicate 120 5 ++ [7]) 0) = -1 := by
+  rw [prefix_agrees_plain]; decide
+
+example : sgn (Cmp.lxCmp .plain true (Cmp.stored true (List.replicate 120 5) 300) (List.replicate 119 5 ++ [7]) 200)
+    = sgn (Cmp.cmpKeys .plain true (Cmp.stored true (List.replicate 120 5) 300) (List.replicate 119 5 ++ [7]) 200) :=
+  prefix_agrees_compound_same_size _ _ 300 200 (by decide) (by decide)
+
 end IwModel.C19
